@@ -910,7 +910,9 @@ class Explorer:
                 v = read_proj(env.get(loc, TOP), projs)
                 tg = tag_of(v)
                 if tg:
-                    events = events | {('drop', tg, t[3])}
+                    events = events | {('drop', tg, t[3], loc, not projs)}
+                elif isinstance(strip(v), A) and strip(v).name == 'Err' and not projs:
+                    events = events | {('drop', 'Err', t[3], loc, True)}
             stack.append((t[2], 0, env, events, dsrc, visits))
         elif k == 'assert':
             stack.append((t[3], 0, env, events, dsrc, visits))
@@ -1140,6 +1142,17 @@ class Explorer:
         if inl:
             self._inline(crec, args, ev, cont, depth, name)
             return
+        # a closure handed to a callee that is not analysed may run any number of times: what it writes through its by-&mut captures
+        # is unknown afterwards (e.g. `v.retain(|x| { result = Err(e); false })`)
+        for a in args:
+            ca = strip(a)
+            if isinstance(ca, C) and ca.caps:
+                wr = self.closure_written_caps(ca.deff)
+                for k, cap in enumerate(ca.caps):
+                    if k in wr and isinstance(cap, MR) and cap.frame == depth:
+                        nm = rec['locals'][cap.loc][1] if not cap.projs else None
+                        newv = sym(tag_of(cap.v) or nm or ('captured@%s' % t[5]))
+                        env[cap.loc] = write_proj(env.get(cap.loc, TOP), list(cap.projs), newv) if cap.projs else newv
         if self.trace:
             ats = [tag_of(a) for a in args]
             ats = [x for x in ats if x]
@@ -1201,6 +1214,38 @@ class Explorer:
             k(TOP, ev | {('call', name)})
             return
         k(TOP, ev | {('callparam', 'hof')})
+
+    def closure_written_caps(self, deff):
+        """indices of the captured variables a closure body assigns to or borrows mutably (through its environment _1)"""
+        memo = self.__dict__.setdefault('_cwc', {})
+        if deff in memo:
+            return memo[deff]
+        out = set()
+        crec = self.facts.fn(deff)
+        if crec is not None and 'bb' in crec:
+            def cap_of(pl):
+                loc, projs = pl
+                if loc != 1:
+                    return None
+                for p in projs:
+                    if isinstance(p, list) and p[0] == 'f':
+                        return p[1]
+                return None
+            for b in crec['bb']:
+                for st in b['s']:
+                    if st[0] != '=':
+                        continue
+                    if st[1][1]:
+                        k = cap_of(st[1])
+                        if k is not None:
+                            out.add(k)
+                    rv = st[2]
+                    if rv[0] == 'ref' and len(rv) > 2 and rv[2]:
+                        k = cap_of(rv[1])
+                        if k is not None and any(p == '*' for p in rv[1][1]):
+                            out.add(k)
+        memo[deff] = out
+        return out
 
     def hof(self, name, args, ev, cont, depth):
         """Option / Result combinators taking callables; forks over the receiver's variant"""
